@@ -551,6 +551,15 @@ mod __vx_leafcheck {
             }
         }
         for (i, v) in VALID.iter().enumerate() { cases.push((format!("valid{}", i), v.to_string())); }
+        // files that break a static rule: generate rejects them (nothing to compile); if it ever accepts one, what it emits must still compile.
+        // Files whose only fault is a repeated field name are left out (excluded by the statement of C05).
+        for (i, t) in validation_family().iter().enumerate() {
+            let repeated_field = { let (text, pos) = render(t, 0); let _ = text; read_file(t, &pos).map_or(false, |f| all_fieldsets(&f).iter().any(|fs| {
+                let names: Vec<&String> = fs.iter().filter_map(|x| x.name.as_ref().map(|n| &n.0)).collect();
+                names.iter().enumerate().any(|(k, a)| names[..k].contains(a))
+            })) };
+            if !repeated_field { cases.push((format!("validation-family{}", i), t.iter().map(|x| x.replace(' ', "~")).collect::<Vec<_>>().join(" "))); }
+        }
         for (i, v) in enumerated(1, if thorough() { 3 } else { 31 }).iter().enumerate() { cases.push((format!("enumerated{}", i), v.clone())); }
 
         let work: Vec<(String, String, String)> = cases.into_iter().filter_map(|(tag, compact)| {
